@@ -18,6 +18,7 @@ def dispatch (prop k : String) (i impl : Json) : E Json :=
   | "chain" => handleChain i
   | "validate" => handleValidate prop i impl
   | "trust" => handleTrust i
+  | "algtable" => handleAlgTable i
   | "envstate" => handleEnvState i
   | "sign" => handleSign prop i impl
   | "localsigner" => handleLocalSigner i impl
